@@ -114,6 +114,8 @@ class Module:
                     self.loggers.add(t.id)
         self.sites = {}  # id(call) -> dict
         self.order = []
+        self.secret_classes = secret_repr_classes(self.tree)
+        self.secret_args = []  # (function, expression): a logging argument that is an object of such a class
         self.check_logger_uses()
 
     def is_getlogger(self, v):
@@ -218,9 +220,29 @@ class Module:
             return unknown("response_writer referenced outside dispatcher")
         return REPLY
 
+    def secret_objects(self, fn):
+        """expression text -> class, for every Name / attribute chain E of fn that is read as `E.<field>` with <field> a
+        field of a class whose __repr__/__str__ prints the password (identified by use, not by spelling)"""
+        out = {}
+        for n in ast.walk(fn):
+            if isinstance(n, ast.Attribute) and isinstance(n.ctx, ast.Load) and isinstance(n.value, (ast.Name, ast.Attribute)):
+                if isinstance(n.value, ast.Name) and n.value.id in ("self", "cls"):
+                    continue
+                for cname, fields in self.secret_classes.items():
+                    if n.attr in fields:
+                        out[src(n.value)] = cname
+        return out
+
     def walk_function(self, fn, qual, outer_env, cls):
         env = dict(outer_env)
         env.update(self.param_seeds(fn, qual))
+        self.secret_objs = getattr(self, "secret_objs", []) + [self.secret_objects(fn)]
+        try:
+            self.walk_function_body(fn, qual, env)
+        finally:
+            self.secret_objs = self.secret_objs[:-1]
+
+    def walk_function_body(self, fn, qual, env):
         self.fn_stack = getattr(self, "fn_stack", []) + [(fn, qual)]
         try:
             self.walk_block(fn.body, env)
@@ -358,6 +380,12 @@ class Module:
         if not args:
             raise Unclassified(f"{self.file}:{call.lineno}: logging call without a message")
         srcs = [self.ev(a, env) for a in args]
+        for a in args:
+            for m in ast.walk(a):
+                if isinstance(m, (ast.Name, ast.Attribute)) and src(m) in self.secret_objs[-1]:
+                    par = self.parent.get(m)
+                    if not (isinstance(par, ast.Attribute) and par.value is m):  # the object itself, not one of its fields
+                        self.secret_args.append((f"{self.file}:{qual}", self.secret_objs[-1][src(m)]))
         for k in call.keywords:
             if k.arg == "exc_info":
                 if not (isinstance(k.value, ast.Constant) and k.value.value in (False, None)):
@@ -386,6 +414,9 @@ class Module:
     def ev(self, e, env):
         if isinstance(e, ast.Constant):
             return CONST
+        if isinstance(e, (ast.Name, ast.Attribute)) and getattr(self, "secret_objs", None) and src(e) in self.secret_objs[-1]:
+            # an object whose repr()/str() embeds the password it was configured with: a tainted source
+            return unknown(f"object of class {self.secret_objs[-1][src(e)]} (its __repr__/__str__ prints the password): {src(e)}")
         if isinstance(e, ast.Name):
             return env.get(e.id, unknown(e.id))
         if isinstance(e, ast.JoinedStr):
@@ -691,7 +722,8 @@ def server_pass_facts(mod):
         wparams = [a.arg for a in w.args.args]
         if len(wparams) < 3:
             raise Unclassified("ConnectionConditions wrapper signature")
-        deco_sinks += rest_sinks(w, wparams[2], parent)
+        wrapped = [a.arg for a in call.args.args][1:2]  # __call__(self, <wrapped function>)
+        deco_sinks += ["@wrapped" if [x] == wrapped else x for x in rest_sinks(w, wparams[2], parent)]
         if any(mod.is_log_call(n) for n in ast.walk(w)):
             deco_sinks.append("logging-call-in-wrapper")
         # info = f"bad sequence of commands ({message})" when fail_info is None
@@ -735,11 +767,47 @@ def server_pass_facts(mod):
     if unknown_names is None:
         raise Unclassified("dispatcher: 502 reply not found")
     # `cmd, rest = result` is the only binding of those names in the dispatcher
-    unpack = [n for n in ast.walk(disp) if isinstance(n, ast.Assign) and isinstance(n.targets[0], ast.Tuple) and src(n.value) == "result"]
-    if len(unpack) != 1 or len(unpack[0].targets[0].elts) != 2:
-        raise Unclassified("dispatcher: `cmd, rest = result` not found")
+    result_vars = task_result_vars(disp)
+    unpack = [n for n in ast.walk(disp) if isinstance(n, ast.Assign) and isinstance(n.targets[0], ast.Tuple) and isinstance(n.value, ast.Name) and n.value.id in result_vars]
+    if len(unpack) != 1 or len(unpack[0].targets[0].elts) != 2 or not all(isinstance(e, ast.Name) for e in unpack[0].targets[0].elts):
+        raise Unclassified("dispatcher: `<verb>, <rest> = <local bound to task.result()>` not found")
     verb_var, rest_var = [e.id for e in unpack[0].targets[0].elts]
-    disp_rest_sinks = rest_sinks(disp, rest_var, parent)
+    roles = {verb_var: "@verb", rest_var: "@rest"}
+    # the handler of a line is looked up by the verb parse_command returned and by nothing else: the dispatcher reads
+    # `self.commands_mapping` exactly once, as `<handler> = self.commands_mapping.get(<verb>)`, and neither the verb,
+    # the argument nor the handler local is bound anywhere else in the dispatcher.  The locals are identified by what
+    # they are bound to (their ROLE), never by spelling.
+    reads = [n for n in ast.walk(disp) if isinstance(n, ast.Attribute) and n.attr == "commands_mapping"]
+    lookup_ok, lookup_why, handler_var = True, "", None
+    if len(reads) != 1:
+        lookup_ok, lookup_why = False, f"the dispatcher reads commands_mapping {len(reads)} times"
+    else:
+        g = parent.get(reads[0])
+        c = parent.get(g)
+        a = parent.get(c)
+        if not (
+            src(reads[0].value) == "self" and isinstance(g, ast.Attribute) and g.attr == "get" and isinstance(c, ast.Call) and c.func is g
+            and len(c.args) == 1 and not c.keywords and isinstance(c.args[0], ast.Name) and c.args[0].id == verb_var
+            and isinstance(a, ast.Assign) and a.value is c and len(a.targets) == 1 and isinstance(a.targets[0], ast.Name)
+        ):
+            lookup_ok, lookup_why = False, f"commands_mapping is used as {src(a or c or g)[:80]}"
+        else:
+            handler_var = a.targets[0].id
+            roles[handler_var] = "@handler"
+    stores = {}
+    for n in ast.walk(disp):
+        if isinstance(n, ast.Name) and isinstance(n.ctx, (ast.Store, ast.Del)):
+            stores[n.id] = stores.get(n.id, 0) + 1
+        elif isinstance(n, ast.arg):
+            stores[n.arg] = stores.get(n.arg, 0) + 1
+    for v in (verb_var, rest_var, handler_var):
+        if lookup_ok and v is not None and stores.get(v, 0) != 1:
+            lookup_ok, lookup_why = False, f"{roles[v]} local is bound {stores.get(v, 0)} times in the dispatcher"
+    # other readers of the mapping (outside __init__ and the dispatcher) would be a second way to reach a handler
+    for name, m in server.items():
+        if name not in ("__init__", "dispatcher") and any(isinstance(n, ast.Attribute) and n.attr == "commands_mapping" for n in ast.walk(m)):
+            lookup_ok, lookup_why = False, f"commands_mapping is also used in Server.{name}"
+    disp_rest_sinks = [roles.get(x, x) for x in rest_sinks(disp, rest_var, parent)]
     pc_calls_default = True
     n_calls = 0
     for n in ast.walk(tree):
@@ -760,19 +828,116 @@ def server_pass_facts(mod):
         "sinks": sinks,
         "guard_replies": guard_replies,
         "deco_sinks": deco_sinks,
-        "unknown_names": unknown_names,
+        "unknown_names": sorted(set(roles.get(x, x) for x in unknown_names)),
         "verb_var": verb_var,
         "rest_var": rest_var,
+        "lookup_ok": lookup_ok,
+        "lookup_why": lookup_why,
         "disp_rest_sinks": disp_rest_sinks,
         "pc_calls_default": pc_calls_default,
         "returns_lower": returns_lower,
     }
 
 
+def secret_repr_classes(tree):
+    """class name -> fields, for the classes of a module whose __repr__ / __str__ / __format__ reads a field that holds the
+    password: a field named by / assigned from __init__'s `password` parameter"""
+    out = {}
+    for cls in tree.body:
+        if not isinstance(cls, ast.ClassDef):
+            continue
+        m = methods_of(cls)
+        init = m.get("__init__")
+        if init is None or "password" not in [a.arg for a in init.args.args + init.args.kwonlyargs]:
+            continue
+        fields, pw_fields = set(), set()
+        for n in ast.walk(init):
+            if isinstance(n, ast.Assign):
+                for t in n.targets:
+                    if isinstance(t, ast.Attribute) and isinstance(t.value, ast.Name) and t.value.id == "self":
+                        fields.add(t.attr)
+                        if "password" in names_in(n.value):
+                            pw_fields.add(t.attr)
+        for name in ("__repr__", "__str__", "__format__"):
+            if name in m and any(isinstance(n, ast.Attribute) and n.attr in pw_fields and isinstance(n.value, ast.Name) and n.value.id == "self" for n in ast.walk(m[name])):
+                out[cls.name] = fields
+    return out
+
+
+def task_result_vars(fn):
+    """locals bound to `<task>.result()`"""
+    return {
+        n.targets[0].id
+        for n in ast.walk(fn)
+        if isinstance(n, ast.Assign) and len(n.targets) == 1 and isinstance(n.targets[0], ast.Name)
+        and isinstance(n.value, ast.Call) and isinstance(n.value.func, ast.Attribute) and n.value.func.attr == "result" and not n.value.args
+    }
+
+
+def readline_vars(fn):
+    """locals bound to an expression that awaits `<stream>.readline()`"""
+    out = set()
+    for n in ast.walk(fn):
+        if isinstance(n, ast.Assign) and any(isinstance(m, ast.Attribute) and m.attr == "readline" for m in ast.walk(n.value)):
+            out |= {m.id for t in n.targets for m in ast.walk(t) if isinstance(m, ast.Name)}
+    return out
+
+
+def nth_param(fn, i):
+    a = [x.arg for x in fn.args.posonlyargs + fn.args.args]
+    return [a[i]] if len(a) > i else []
+
+
+def taint_closure(fn, seeds):
+    """the locals of fn that can hold (a piece of) a value held by one of `seeds`: closed under bindings whose
+    right-hand side carries a tainted name through operators, f-strings, containers, attribute / subscript / method
+    calls ON a tainted receiver and str/repr/bytes/ascii/format of it.  The result of any other call is opaque (a
+    reply code returned by self.command(cmd) is not the command).  Names are found by binding, not by spelling."""
+    tainted = set(seeds)
+
+    def carries(e):
+        if isinstance(e, ast.Name):
+            return e.id in tainted
+        if isinstance(e, (ast.Attribute, ast.Subscript, ast.Starred, ast.Await, ast.FormattedValue)):
+            return carries(e.value)
+        if isinstance(e, ast.Call):
+            if isinstance(e.func, ast.Attribute) and carries(e.func.value):
+                return True
+            if isinstance(e.func, ast.Name) and e.func.id in ("str", "repr", "ascii", "bytes", "format", "bytearray"):
+                return any(carries(a) for a in e.args)
+            if isinstance(e.func, ast.Attribute) and e.func.attr in ("join", "format"):
+                return any(carries(a) for a in e.args) or any(carries(k.value) for k in e.keywords)
+            return False
+        if isinstance(e, (ast.Lambda, ast.ListComp, ast.SetComp, ast.DictComp, ast.GeneratorExp)):
+            return any(isinstance(m, ast.Name) and m.id in tainted for m in ast.walk(e))
+        return any(carries(c) for c in ast.iter_child_nodes(e) if isinstance(c, ast.expr))
+
+    changed = True
+    while changed:
+        changed = False
+        for n in ast.walk(fn):
+            pairs = []
+            if isinstance(n, ast.Assign):
+                pairs = [(t, n.value) for t in n.targets]
+            elif isinstance(n, (ast.AugAssign, ast.AnnAssign, ast.NamedExpr)) and n.value is not None:
+                pairs = [(n.target, n.value)]
+            elif isinstance(n, (ast.For, ast.AsyncFor)):
+                pairs = [(n.target, n.iter)]
+            for t, v in pairs:
+                if carries(v):
+                    for m in ast.walk(t):
+                        if isinstance(m, ast.Name) and isinstance(m.ctx, ast.Store) and m.id not in tainted:
+                            tainted.add(m.id)
+                            changed = True
+    return tainted
+
+
 def secret_raises(mod, specs):
-    """raise statements whose expression mentions a password-bearing local, in the listed functions"""
+    """raise statements whose expression mentions a password-bearing local, in the listed functions.  A spec is
+    (function path, seeds): seeds a list of names or a function node -> names; the password-bearing locals are the
+    taint closure of the seeds (identified by what they are bound to)"""
     out = []
-    for path, tainted in specs:
+    for path, seeds in specs:
         node = mod.tree
         ok = True
         for part in path.split("."):
@@ -787,6 +952,7 @@ def secret_raises(mod, specs):
             node = nxt
         if not ok:
             raise Unclassified(f"{mod.file}: function {path} not found")
+        tainted = taint_closure(node, seeds(node) if callable(seeds) else seeds)
         for n in ast.walk(node):
             if isinstance(n, ast.Raise) and n.exc is not None:
                 if set(names_in(n.exc)) & set(tainted):
@@ -1131,13 +1297,13 @@ def generate(src_dir):
     raises = secret_raises(
         sv,
         [
-            ("Server.parse_command", ["line", "s", "cmd", "rest", "stars"]),
-            (f"Server.{pf['handler']}", ["rest"]),
-            ("ConnectionConditions.__call__", ["rest"]),
-            ("MemoryUserManager.authenticate", ["password"]),
-            ("Server.dispatcher", [pf["rest_var"], "result"]),
+            ("Server.parse_command", readline_vars),  # the line read from the peer and everything cut from it
+            (f"Server.{pf['handler']}", lambda fn: nth_param(fn, 2)),  # handler(self, connection, <rest>)
+            ("ConnectionConditions.__call__", lambda fn: [p for w in fn.body if isinstance(w, (ast.FunctionDef, ast.AsyncFunctionDef)) for p in nth_param(w, 2)]),
+            ("MemoryUserManager.authenticate", lambda fn: nth_param(fn, 2)),  # authenticate(self, user, <password>)
+            ("Server.dispatcher", task_result_vars),  # the (verb, rest) pair parse_command returned
         ],
-    ) + secret_raises(cl, [("BaseClient.command", ["command", "message", "raw"]), (f"{lf['class']}.login", ["password", "cmd"])])
+    ) + secret_raises(cl, [("BaseClient.command", lambda fn: nth_param(fn, 1)), (f"{lf['class']}.login", ["password"])])
     pw_uses = client_password_uses(cl)
     try:
         lp, lp_why = client_login_program(cl), ""
@@ -1154,7 +1320,7 @@ def generate(src_dir):
             % (
                 s["file"],
                 s["line"],
-                s["text"].replace("*)", "* )").replace("(*", "( *")[:100],
+                s["level"],
                 S(s["file"]),
                 S(s["func"]),
                 S(s["level"]),
@@ -1178,8 +1344,10 @@ def generate(src_dir):
     out += f"Definition pass_rest_sinks : list string := {slist(pf['sinks'])}.\n"
     out += f"Definition pass_decorator_rest_sinks : list string := {slist(pf['deco_sinks'])}.\n"
     out += f"Definition dispatcher_rest_sinks : list string := {slist(pf['disp_rest_sinks'])}.\n"
-    out += f"Definition dispatcher_verb_var : string := {S(pf['verb_var'])}.\n"
-    out += f"Definition dispatcher_rest_var : string := {S(pf['rest_var'])}.\n"
+    out += "(* the handler of a line is `self.commands_mapping.get(<the verb parse_command returned>)`, the only read of the mapping *)\n"
+    if not pf["lookup_ok"]:
+        out += "(* NOT SO: " + pf["lookup_why"].replace("*)", "* )").replace("(*", "( *") + " *)\n"
+    out += f"Definition dispatcher_lookup_by_parsed_verb : bool := {emit.boolean(pf['lookup_ok'])}.\n"
     out += f"Definition unknown_verb_reply_names : list string := {slist(pf['unknown_names'])}.\n\n"
     out += "(* Client.login: cmd = <prefix> + password ; censor_after = <int> ; self.command(cmd, ..., censor_after=censor_after) *)\n"
     out += f"Definition login_pass_prefix : list Z := {emit.text(lf['prefix'])}.\n"
@@ -1191,6 +1359,14 @@ def generate(src_dir):
     out += f"Definition login_program_translated : bool := {emit.boolean(lp is not None)}.\n"
     out += f"Definition login_program : login_prog := {coq_login_program(lp or login_program_fallback())}.\n"
     out += "Definition client_password_uses : list (string * string) := " + emit.lst(f"({S(a)}, {S(b)})" for a, b in pw_uses) + ".\n\n"
+    out += "(* classes whose __repr__/__str__ prints the password they hold, and logging arguments that are such an object *)\n"
+    out += f"Definition secret_repr_classes : list string := {slist(sorted(c for m in mods.values() for c in m.secret_classes))}.\n"
+    sec = []
+    for m in mods.values():
+        for x in m.secret_args:
+            if x not in sec:
+                sec.append(x)
+    out += "Definition secret_object_log_args : list (string * string) := " + emit.lst(f"({S(a)}, {S(b)})" for a, b in sec) + ".\n\n"
     out += "(* raise statements built from a password-bearing local, in the functions that hold one *)\n"
     out += "Definition secret_raise_sites : list (string * string) := " + emit.lst(f"({S(a)}, {S(b)})" for a, b in raises) + ".\n"
     return out
